@@ -295,3 +295,15 @@ def run_case(case):
     return dict(viol=viols, obs=repr(sorted(outcomes))[:3000], states=list(outcomes), nontrivial=ex['executions'] > 1, ntkey=repr(case),
                 evals=ex['executions'], transitions=ex['executions'] * max(1, ex['max_points']), caps=caps,
                 extra={'schedules': ex['executions'], 'max_scheduling_points_per_execution': ex['max_points'], 'branching_points_default_schedule': ex['branching_points_default']})
+
+
+def replay_one(case, violation):
+    """Re-executes exactly the recorded schedule (twice: the second run must agree) and judges it."""
+    S.explore(lambda p: execute(case, p), 0, max_execs=1)   # warm-up of the tracer
+    s1, r1 = execute(case, violation['schedule'])
+    s2, r2 = execute(case, violation['schedule'])
+    if repr(r1['journal']) != repr(r2['journal']):
+        raise HarnessError('the same schedule gave two different executions: nondeterminism not owned')
+    print('journal of wrapped-storage calls:', [j[0] for j in r1['journal']])
+    print('final store:', r1['store'])
+    return judge(case, r1)
